@@ -128,7 +128,7 @@ use eyre::{bail, ensure, Result};
 use smallvec::SmallVec;
 use zerocopy::IntoBytes;
 
-use super::interior::{InteriorNode, InteriorNodeMut, INTERIOR_SLOT_SIZE};
+use super::interior::{InteriorNode, InteriorNodeMut, INTERIOR_CONTENT_START, INTERIOR_SLOT_SIZE};
 use super::leaf::{LeafNode, LeafNodeMut, SearchResult, Slot, LEAF_CONTENT_START, SLOT_SIZE};
 use crate::encoding::varint::{encode_varint, varint_len};
 use crate::storage::{Freelist, MmapStorage, PageHeader, PageType, Storage, PAGE_SIZE};
@@ -1166,7 +1166,33 @@ impl<'a, S: Storage> BTree<'a, S> {
             all_children.insert(insert_pos + 1, new_right_child);
         }
 
-        let mid = all_separators.len() / 2;
+        // Choose the separator to promote by bytes, not by count: separators are full keys
+        // of very different lengths, and a half that holds most of the long ones (plus the
+        // new one) does not fit into a page.
+        let sizes: BumpVec<usize> = all_separators
+            .iter()
+            .map(|s| s.len() + INTERIOR_SLOT_SIZE)
+            .collect_in(&arena);
+        let total_size: usize = sizes.iter().sum();
+        let page_capacity = PAGE_SIZE - INTERIOR_CONTENT_START;
+        let candidates = if all_separators.len() >= 3 {
+            1..all_separators.len() - 1
+        } else {
+            0..all_separators.len()
+        };
+        let mut mid = all_separators.len() / 2;
+        let mut best_imbalance = usize::MAX;
+        let mut left_size: usize = sizes[..candidates.start].iter().sum();
+        for i in candidates {
+            let right_size = total_size - left_size - sizes[i];
+            let imbalance = left_size.abs_diff(right_size);
+            if left_size <= page_capacity && right_size <= page_capacity && imbalance < best_imbalance
+            {
+                best_imbalance = imbalance;
+                mid = i;
+            }
+            left_size += sizes[i];
+        }
         let promoted_separator = all_separators[mid].to_vec();
 
         {
